@@ -50,7 +50,7 @@ def exc_strategy():
     from hypothesis import strategies as st
     from pynenc.exceptions import RetryError
 
-    fixed = st.sampled_from([ValueError, KeyError, RuntimeError, ZeroDivisionError, T.AppError, T.OtherError, RetryError])
+    fixed = st.sampled_from([ValueError, KeyError, RuntimeError, ZeroDivisionError, T.AppError, T.AppError, T.AppError, T.OtherError, T.OtherError, RetryError])
     late = st.integers(0, 5).map(late_error)
     return st.builds(lambda cls, args: cls(*args), st.one_of(fixed, fixed, late), V.exc_args)
 
@@ -335,7 +335,7 @@ def run(ctx: Ctx) -> None:
     for s in SERIALIZERS:
         for k in ("mem", "sqlite"):
             i += 1
-            jobs.append(("values_shard", (s, k, ctx.seed * 100 + i, (90 if k == "mem" else 45) if q else 4000, known)))
+            jobs.append(("values_shard", (s, k, ctx.seed * 100 + i, (300 if k == "mem" else 150) if q else 4000, known)))
     for k in ("mem", "sqlite"):
         for sc in SCENARIOS:
             jobs.append(("sched_shard", (k, sc, 1 if q else 2, 500 if q else 8000, ctx.seed, known)))
